@@ -636,6 +636,7 @@ class Evaluator(object):
 
     def for_stmt(self, st, env):
         it = self.ev(st.iter, env)
+        self._note_gen_iteration(st.iter, it)
         while it.op == "call" and tm.callee_name(it.a[0]) in ("builtins.list", "builtins.tuple", ".tolist") and len(it.a[1]) == 1 and not it.a[2]:
             it = it.a[1][0]  # iterating list(X) / X.tolist() visits the elements of X
         if it.op == "call" and tm.callee_name(it.a[0]) == "np.argwhere" and len(it.a[1]) == 1 and not it.a[2] and isinstance(st.target, (ast.Tuple, ast.List)):
@@ -818,9 +819,28 @@ class Evaluator(object):
         return res
 
     # ------------------------------------------------------------- assignments
+    def _loop_depth(self):
+        return sum(1 for x in self.pc if x[0] == "loop")
+
+    def _note_gen_iteration(self, iter_node, it):
+        """a generator object held in a variable can be consumed once: iterating it inside a loop / comprehension that
+        was entered after it was created, or a second time, sees it exhausted"""
+        if not isinstance(iter_node, ast.Name) or it.op != "comp" or it.a[0] != "gen":
+            return
+        made = getattr(self, "_gen_made", {}).get(iter_node.id)
+        if made is None or made[1] != it.id:
+            return
+        used = self.__dict__.setdefault("_gen_used", {})
+        n = used.get(iter_node.id, 0)
+        used[iter_node.id] = n + 1
+        if self._loop_depth() > made[0] or n >= 1:
+            self.site("gen_reuse", iter_node, name=iter_node.id, nested=self._loop_depth() > made[0])
+
     def assign(self, tg, v, env, node):
         if isinstance(tg, ast.Name):
             env[tg.id] = v
+            if hasattr(v, "op") and v.op == "comp" and v.a[0] == "gen":
+                self.__dict__.setdefault("_gen_made", {})[tg.id] = (self._loop_depth(), v.id)
             return
         if isinstance(tg, (ast.Tuple, ast.List)):
             n = len(tg.elts)
@@ -1232,6 +1252,7 @@ class Evaluator(object):
         saved = self.pc
         for g in node.generators:
             it = self.ev(g.iter, inner)
+            self._note_gen_iteration(g.iter, it)
             while it.op == "call" and tm.callee_name(it.a[0]) in ("builtins.list", "builtins.tuple", ".tolist") and len(it.a[1]) == 1 and not it.a[2]:
                 it = it.a[1][0]
             iters.append(it)
